@@ -258,6 +258,6 @@ pub fn run(ctx: &Ctx) {
     if ctx.is_worker || ctx.replay.is_some() {
         ctx.explore("histories", 1, 1, || case_strategy(false), oracle);
     } else {
-        run_confs(ctx, "histories", ctx.tier.pick(8, 48), ctx.tier.pick(40, 160), false, &[]);
+        run_confs(ctx, "histories", ctx.tier.pick(16, 96), ctx.tier.pick(60, 300), false, &[]);
     }
 }
